@@ -78,7 +78,8 @@ Theorem C01_join_triangle_fused_w1_any : forall t al rs, tri_big t -> Proofs.Joi
   jt_rows t 1 al false = Some rs -> jt_fused rs = true.
 Proof. exact Proofs.JoinOutlineAny.jt_fused_w1_any. Qed.
 
-(* ... hence C01 (b) for the stroke-only triangle of width 1, input-only: vertices within +-V, V + 14 <= 8191 *)
+(* ... hence C01 (b) for the stroke-only triangle of width 1 (vertices within +-V, V + 14 <= 8191; still under w1_outline_case -
+   the input-only form is C01_join_triangle_pixels_draw_w1_all below) *)
 Theorem C01_join_triangle_pixels_draw_w1_any : forall V t al, range_ok V 1 -> tri_within V t ->
   Proofs.JoinOutlineAny.w1_outline_case t al ->
   exists px dr, jt_pixels t 1 al None = Some px /\ jt_draw t 1 al None = Some dr /\ flat_map rect_writes dr = px.
